@@ -14,6 +14,7 @@ RULE = ('Boolean expressions and predicates: exhaustive propositional-plus-quant
         'fully in thorough) and random typed terms biased to conjunctions under negations, implications and nested '
         'quantifiers. Valuations: complete truth tables x array domains {[], [0], [0,1], [1,2]}, set and range domains '
         'incl. empty ranges. Non-trivial = >= 2 parts or a transformed part; distinct = input shape.')
+RULE_ADDED = ' Since the seeding rounds: histories through but(); the constant predicates { True } / { False } however obtained (parsed, folded by simplify, negated, constructed).'
 ASSUMPTIONS = ['reference evaluator of DESIGN.md 4.1; ValueError is licensed when the input is false on every '
                'valuation of the grid on which it is defined']
 FLOORS = {
@@ -234,6 +235,37 @@ def run(ctx):
         ctx.violation(kind, w, feats, shrinker)
 
     envs = grid(rng)
+    if ctx.shard == 0:
+        # the two constant predicates, however obtained (parsed, folded by simplify, negated): { True } has nothing to
+        # split, { False } is unsatisfiable
+        import types
+        from hpl.ast import HplContradiction, HplVacuousTruth
+        from hpl.parser import parse_condition, parse_predicate
+        from hpl.rewrite import simplify
+        makers = [('parse_predicate("{ False }")', lambda: parse_predicate('{ False }')),
+                  ('parse_predicate("{ True }")', lambda: parse_predicate('{ True }')),
+                  ('parse_condition("False")', lambda: parse_condition('False')),
+                  ('parse_condition("True")', lambda: parse_condition('True')),
+                  ('simplify({ x > 0 and False })', lambda: simplify(parse_predicate('{ x > 0 and False }'))),
+                  ('simplify({ x > 0 or True })', lambda: simplify(parse_predicate('{ x > 0 or True }'))),
+                  ('simplify({ not (1 < 2) })', lambda: simplify(parse_predicate('{ not (1 < 2) }'))),
+                  ('HplVacuousTruth().negate()', lambda: HplVacuousTruth().negate()),
+                  ('HplContradiction().negate()', lambda: HplContradiction().negate()),
+                  ('HplContradiction()', HplContradiction), ('HplVacuousTruth()', HplVacuousTruth)]
+        for label, mk in makers:
+            om = hplapi.outcome(mk)
+            if om[0] != 'ok' or not getattr(om[1], 'is_predicate', False):
+                continue
+            feats = {'api:split_and', 'shape:constant-predicate'}
+            ctx.begin_case(feats)
+            kind, detail, nparts, judged, skipped, how = judge(types.SimpleNamespace(h=om[1]), envs)
+            ctx.evaluation('constpred|' + label, True)
+            ctx.count('constant_predicates_judged')
+            ctx.count('valuations_judged', judged)
+            if kind is not None:
+                w = {'input': label, 'level': 'predicate', 'object': str(om[1])}
+                w.update(detail)
+                ctx.violation(kind, w, feats)
     idx = 0
     for k in range(0, 4):
         for f in formulas(k):
